@@ -106,7 +106,7 @@ func init() {
 				for _, m := range methods {
 					ev = append(ev, gen.M{"op": "mus", "method": m})
 				}
-				res = append(res, gen.M{"drv": "explain", "n": n, "clauses": clauses, "ev": ev})
+				res = append(res, gen.M{"drv": "explain", "n": n, "clauses": clauses, "ev": ev, "wb": i%2 == 0})
 			}
 			return res
 		},
@@ -114,6 +114,9 @@ func init() {
 			nt := false
 			for _, e := range evs(t) {
 				cov["op."+s(e, "op")]++
+				for _, w := range sub(e, "wb") {
+					cov["wb."+s(w, "k")]++
+				}
 				if s(e, "op") != "mus" {
 					continue
 				}
